@@ -109,7 +109,7 @@ func cacheGenHistory(r *Rng, g *EvGen, steps int, findsPerStep int) {
 			e = cloneEv(pick(r, offered)) // the same event again (duplicate / re-insert after deletion or eviction)
 		case len(offered) > 0 && r.P(25):
 			// a new version of an existing address (same author, kind, d): newer, older or equal timestamp
-			base := pick(r, offered)
+			base := pickVersioned(r, offered)
 			e = g.Event()
 			e.Pubkey, e.Kind = base.Pubkey, base.Kind
 			e.Tags = make([]mocrelay.Tag, len(base.Tags))
